@@ -651,6 +651,7 @@ def run(ctx):
     ctx.rule('C04.LOGICALFILE', lambda: rule_logical_file(ctx) + rule_logical_file_stateless(ctx), 5)
     ctx.rule('C04.STORAGE', lambda: rule_storage_batch(ctx), 2)
     ctx.rule('C04.STATEMOVE', lambda: rule_state_moves_with_commit(ctx), 2)
+    ctx.rule('C04.UNFLUSHEDKEPT', lambda: rule_unflushed_kept(ctx), 1)
     ctx.rule('C04.PREFIXSCAN', lambda: rule_storage_prefix(ctx, 'C04'), 2)
     from . import c06 as _c06
     from ..chain import ChainModel as _CM
@@ -752,7 +753,56 @@ def rule_logical_file(ctx, prop='C04'):
               'each piece is written at the running offset, then offset and data advance by the same piece size, once per iteration',
               'the offset and the remaining data do not advance by the same piece size once per iteration (or the file is opened at '
               'another offset)', loc=ctx.loc(f, lp))
-    return 2
+    # LogicalFile.read: the requested size is taken as given - 0 bytes means 0 bytes (the reader of a file that is ahead of the
+    # state record asks for exactly the committed part, which is nothing before the first commit).  The size is changed only
+    # by counting down what was read; the loop runs while it is != 0.
+    rd = ctx.func('util', 'LogicalFile.read')
+    szv = rd.params[2]
+    rloops = [s_ for s_ in rd.node.body if isinstance(s_, ast.While)]
+    writes = [s_ for s_ in rd.own_nodes() if isinstance(s_, (ast.Assign, ast.AugAssign))
+              and any(isinstance(t, ast.Name) and t.id == szv for t in (s_.targets if isinstance(s_, ast.Assign) else [s_.target]))]
+    foreign = [norm(s_) for s_ in writes if not (isinstance(s_, ast.AugAssign) and isinstance(s_.op, ast.Sub) and rloops and q.in_body(s_, rloops[0].body))]
+    test_ok = len(rloops) == 1 and q.cmp_matches(ctx, rd, rloops[0].test, f'{szv} != 0')
+    ctx.check(not foreign and test_ok, rule, ctx.key(rd, None, 'size taken as given'),
+              'read() loops while size != 0 and changes size only by counting down what was read',
+              f'read() re-interprets the requested size ({foreign or norm(rloops[0].test) if rloops else "no loop"}): a request for 0 bytes '
+              '(the committed part of the files before the first commit) no longer reads nothing', loc=ctx.loc(rd, rd.node))
+    return 3
+
+
+def rule_unflushed_kept(ctx, prop='C04'):
+    """History.flush gives up its in-memory copy only after the batch that persists it was committed: entries removed from
+    `self.unflushed` while the batch is still being filled are gone if the commit fails (disk full, the job cancelled with
+    the batch discarded) - the next flush then writes a state record for rows that were never stored."""
+    rule = f'{prop}.UNFLUSHEDKEPT'
+    f = ctx.func('hist', 'History.flush')
+    withs = [s_ for s_ in f.own_nodes() if isinstance(s_, (ast.With, ast.AsyncWith))
+             and any(isinstance(i.context_expr, ast.Call) and norm(i.context_expr.func).endswith('write_batch') for i in s_.items)]
+    if len(withs) != 1:
+        raise AnalysisError('History.flush: expected one write batch')
+    w = withs[0]
+    end = max(getattr(x, 'lineno', 0) for x in ast.walk(w))
+    n = 0
+    bad = []
+    for x in f.own_nodes():
+        site = None
+        if isinstance(x, ast.Call) and isinstance(x.func, ast.Attribute) and x.func.attr in ('pop', 'clear', 'popitem') \
+                and ctx.res.canon(x.func.value, f) == 'self.unflushed':
+            site = x
+        elif isinstance(x, ast.Delete) and any(isinstance(t, ast.Subscript) and ctx.res.canon(t.value, f) == 'self.unflushed' for t in x.targets):
+            site = x
+        elif isinstance(x, ast.Assign) and any(ctx.res.canon(t, f) == 'self.unflushed' for t in x.targets if isinstance(t, ast.Attribute)):
+            site = x
+        if site is None:
+            continue
+        n += 1
+        if q.in_body(site, w.body) or site.lineno <= end:
+            bad.append(f'{norm(q.stmt(site) if not isinstance(site, ast.stmt) else site)[:70]} (line {site.lineno})')
+    ctx.check(n >= 1 and not bad, rule, ctx.key(f, w, 'released after the commit'),
+              'the unflushed history is released only after its batch was committed',
+              f'unflushed history is released before its batch is committed: {bad}' if bad else 'History.flush never releases the unflushed history',
+              loc=ctx.loc(f, w))
+    return 1
 
 
 def rule_logical_file_stateless(ctx, prop='C04'):
